@@ -71,9 +71,11 @@ def stub_kernel():
 
 
 def batch(n, fail_at=None):
-    b = np.array([0.02 + 0.001 * i for i in range(n)])
-    a = np.array([1.0 + 0.01 * i for i in range(n)])
-    E = np.array([0.5 + 0.25 * i for i in range(n)])
+    # deliberately NOT monotone in any argument (and not a self-inverse permutation of a sorted batch): a sort /
+    # re-ordering inside the batch call with a wrong un-permutation must be visible
+    b = np.array([0.02 + 0.001 * ((i * 7919 + 13) % 1009) for i in range(n)])
+    a = np.array([1.0 + 0.01 * ((i * 104729 + 7) % 997) for i in range(n)])
+    E = np.array([0.5 + 0.25 * ((i * 1299709 + 3) % 991) for i in range(n)])
     if fail_at is not None:
         E[fail_at] = -1.0
     la = np.array([0.1 * i for i in range(n)])
